@@ -325,6 +325,56 @@ fn observe(tree: &crate::Tree, reads: &[u64]) -> std::result::Result<Obs, String
 	Ok((gets, lists))
 }
 
+/// get_at answers under known finding F21: the version index holds ONE entry per (key, timestamp) - of the
+/// writes already flushed (`ops[..flushed_upto]`) the last one of each timestamp survives, barriers included;
+/// unflushed writes are all there
+fn f21_gets(ops: &[VOp], flushed_upto: usize, reads: &[u64]) -> Vec<Option<Vec<u8>>> {
+	#[derive(Clone)]
+	struct E {
+		ts: u64,
+		barrier: bool,
+		tomb: bool,
+		val: Vec<u8>,
+	}
+	let mut index: std::collections::BTreeMap<u64, E> = std::collections::BTreeMap::new();
+	let mut mem: Vec<E> = Vec::new();
+	for (i, op) in ops.iter().enumerate() {
+		let v = format!("v{i}").into_bytes();
+		let e = match *op {
+			VOp::SetAt(t) => E { ts: t, barrier: false, tomb: false, val: v },
+			VOp::SoftDelAt(t) => E { ts: t, barrier: false, tomb: true, val: Vec::new() },
+			VOp::HardDelAt(t) => E { ts: t, barrier: true, tomb: true, val: Vec::new() },
+			VOp::Replace => E { ts: u64::MAX, barrier: true, tomb: false, val: v },
+			VOp::Flush => continue,
+		};
+		if i < flushed_upto {
+			index.insert(e.ts, e);
+		} else {
+			mem.push(e);
+		}
+	}
+	let bar = index.values().filter(|e| e.barrier).map(|e| e.ts).max();
+	let mut all: Vec<E> = index.values().filter(|e| bar.map_or(true, |b| e.ts >= b)).cloned().collect();
+	for e in mem {
+		if e.barrier {
+			all.clear();
+		}
+		all.push(e);
+	}
+	reads
+		.iter()
+		.map(|&t| {
+			let mut best: Option<&E> = None;
+			for e in &all {
+				if e.ts <= t && best.map_or(true, |b| e.ts >= b.ts) {
+					best = Some(e);
+				}
+			}
+			best.and_then(|b| if b.tomb { None } else { Some(b.val.clone()) })
+		})
+		.collect()
+}
+
 async fn timetravel_enum_impl(maxlen: usize, name: &str) {
 	use crate::compaction::leveled::Strategy;
 	use crate::WriteOptions;
@@ -397,7 +447,6 @@ async fn timetravel_enum_impl(maxlen: usize, name: &str) {
 				.collect();
 			let mut per_index: Vec<Vec<Option<Vec<u8>>>> = Vec::new();
 			let mut bad: Option<String> = None;
-			let mut hist_only_with_index = false;
 			// two writes of the key with the same timestamp (the version index holds one entry per (key, timestamp))
 			let stamps: Vec<u64> = ops.iter().filter_map(|o| match o { VOp::SetAt(t) | VOp::SoftDelAt(t) | VOp::HardDelAt(t) => Some(*t), _ => None }).collect();
 			let dup_ts = (0..stamps.len()).any(|i| (0..i).any(|j| stamps[i] == stamps[j]));
@@ -445,6 +494,26 @@ async fn timetravel_enum_impl(maxlen: usize, name: &str) {
 				if bad.is_some() {
 					break;
 				}
+				// every observation stage: get_at against the model of the property; with the index ON and two
+				// writes sharing a timestamp, an answer that instead equals the F21 model (one index entry per
+				// (key, timestamp), last flushed write wins, barriers can be overwritten) is a known-finding candidate
+				let fmt = |g: &Vec<Option<Vec<u8>>>| g.iter().map(|v| v.as_ref().map(|b| String::from_utf8_lossy(b).to_string())).collect::<Vec<_>>();
+				let mask = |g: &Vec<Option<Vec<u8>>>| -> Vec<Option<Vec<u8>>> {
+					// the commit time of a replace is only known to lie above 250: compare the 'now' read only
+					if replace_seen { g.iter().enumerate().map(|(i, v)| if i + 1 < reads.len() { None } else { v.clone() }).collect() } else { g.clone() }
+				};
+				let last_flush = ops.iter().rposition(|o| *o == VOp::Flush).unwrap_or(0);
+				let mut f21_hit = false;
+				let mut judge = |stage: &str, gets: &Vec<Option<Vec<u8>>>, flushed_upto: usize| -> Option<String> {
+					if mask(gets) == mask(&want) {
+						return None;
+					}
+					if index && dup_ts && mask(gets) == mask(&f21_gets(&ops, flushed_upto, &reads)) {
+						f21_hit = true;
+						return None;
+					}
+					Some(format!("index={index} {stage}: get_at at {:?} returns {:?}, the version with the greatest timestamp not above T is {:?}", reads, fmt(gets), fmt(&want)))
+				};
 				let o1 = match observe(&tree, &reads) {
 					Ok(o) => o,
 					Err(e) => {
@@ -452,18 +521,8 @@ async fn timetravel_enum_impl(maxlen: usize, name: &str) {
 						break;
 					}
 				};
-				// (a) model
-				let mut got = o1.0.clone();
-				let mut wantx = want.clone();
-				if replace_seen {
-					// the commit time of the replace is only known to lie above 250: compare the 'now' read only
-					for i in 0..reads.len() - 1 {
-						got[i] = None;
-						wantx[i] = None;
-					}
-				}
-				if got != wantx {
-					bad = Some(format!("index={index}: get_at at {:?} returns {:?}, the version with the greatest timestamp not above T is {:?}", reads, o1.0.iter().map(|v| v.as_ref().map(|b| String::from_utf8_lossy(b).to_string())).collect::<Vec<_>>(), want.iter().map(|v| v.as_ref().map(|b| String::from_utf8_lossy(b).to_string())).collect::<Vec<_>>()));
+				if let Some(b) = judge("after the program", &o1.0, last_flush) {
+					bad = Some(b);
 					break;
 				}
 				per_index.push(o1.0.clone());
@@ -471,6 +530,7 @@ async fn timetravel_enum_impl(maxlen: usize, name: &str) {
 				let mut stage = "flush";
 				let _ = tree.flush();
 				let mut o_prev = o1.clone();
+				let mut listing_changed: Option<String> = None;
 				for round in 0..3 {
 					let o2 = match observe(&tree, &reads) {
 						Ok(o) => o,
@@ -479,14 +539,14 @@ async fn timetravel_enum_impl(maxlen: usize, name: &str) {
 							break;
 						}
 					};
-					if o2 != o_prev {
-						let which = if o2.0 != o_prev.0 { format!("get_at answers {:?} became {:?}", o_prev.0.iter().map(|v| v.as_ref().map(|b| String::from_utf8_lossy(b).to_string())).collect::<Vec<_>>(), o2.0.iter().map(|v| v.as_ref().map(|b| String::from_utf8_lossy(b).to_string())).collect::<Vec<_>>()) } else {
-							let i = (0..4).find(|&i| o2.1[i] != o_prev.1[i]).unwrap();
-							format!("history listing (tombstones={}, backward={}) was {:?} and became {:?}", i / 2 == 1, i % 2 == 1, o_prev.1[i].iter().map(|(k, t, d, v)| format!("{}@{}{}={}", String::from_utf8_lossy(k), t, if *d { " DEL" } else { "" }, String::from_utf8_lossy(v))).collect::<Vec<_>>(), o2.1[i].iter().map(|(k, t, d, v)| format!("{}@{}{}={}", String::from_utf8_lossy(k), t, if *d { " DEL" } else { "" }, String::from_utf8_lossy(v))).collect::<Vec<_>>())
-						};
-						hist_only_with_index = index;
-						bad = Some(format!("index={index}: answers changed by {stage}: {which}"));
+					if let Some(b) = judge(&format!("after {stage}"), &o2.0, ops.len()) {
+						bad = Some(b);
 						break;
+					}
+					if o2.1 != o_prev.1 && listing_changed.is_none() {
+						let i = (0..4).find(|&i| o2.1[i] != o_prev.1[i]).unwrap();
+						let show = |l: &Vec<(Vec<u8>, u64, bool, Vec<u8>)>| l.iter().map(|(k, t, d, v)| format!("{}@{}{}={}", String::from_utf8_lossy(k), t, if *d { " DEL" } else { "" }, String::from_utf8_lossy(v))).collect::<Vec<_>>();
+						listing_changed = Some(format!("index={index}: history listing (tombstones={}, backward={}) changed by {stage}: was {:?} and became {:?}", i / 2 == 1, i % 2 == 1, show(&o_prev.1[i]), show(&o2.1[i])));
 					}
 					o_prev = o2;
 					if round == 0 {
@@ -510,9 +570,10 @@ async fn timetravel_enum_impl(maxlen: usize, name: &str) {
 					Ok((tree2, _)) => {
 						match observe(&tree2, &reads) {
 							Ok(o4) => {
-								if o4 != o_prev {
-									hist_only_with_index = index;
-									bad = Some(format!("index={index}: answers changed by reopen: get_at {:?} -> {:?}; history sizes {:?} -> {:?}", o_prev.0.iter().map(|v| v.as_ref().map(|b| String::from_utf8_lossy(b).to_string())).collect::<Vec<_>>(), o4.0.iter().map(|v| v.as_ref().map(|b| String::from_utf8_lossy(b).to_string())).collect::<Vec<_>>(), o_prev.1.iter().map(|l| l.len()).collect::<Vec<_>>(), o4.1.iter().map(|l| l.len()).collect::<Vec<_>>()));
+								if let Some(b) = judge("after reopen", &o4.0, ops.len()) {
+									bad = Some(b);
+								} else if o4.1 != o_prev.1 && listing_changed.is_none() {
+									listing_changed = Some(format!("index={index}: history listing changed by reopen: sizes {:?} -> {:?}", o_prev.1.iter().map(|l| l.len()).collect::<Vec<_>>(), o4.1.iter().map(|l| l.len()).collect::<Vec<_>>()));
 								}
 							}
 							Err(e) => bad = Some(format!("index={index} after reopen: {e}")),
@@ -523,8 +584,26 @@ async fn timetravel_enum_impl(maxlen: usize, name: &str) {
 				if bad.is_some() {
 					break;
 				}
+				if let Some(l) = listing_changed {
+					// a listing that changes is excusable only as F21: index ON and two writes sharing a timestamp
+					if index && dup_ts {
+						f21_hit = true;
+						if kf21_example.is_empty() {
+							kf21_example = format!("{{\"program_on_key_k\":\"{:?}\",\"mismatch\":{:?}}}", ops, l);
+						}
+					} else {
+						bad = Some(l);
+						break;
+					}
+				}
+				if f21_hit {
+					kf21 += 1;
+					if kf21_example.is_empty() {
+						kf21_example = format!("{{\"program_on_key_k\":\"{:?}\",\"mismatch\":\"index=true: get_at answers follow the one-entry-per-(key,timestamp) index model, not the property\"}}", ops);
+					}
+				}
 			}
-			if bad.is_none() && per_index.len() == 2 && per_index[0] != per_index[1] && !replace_seen {
+			if bad.is_none() && per_index.len() == 2 && per_index[0] != per_index[1] && !replace_seen && !dup_ts {
 				bad = Some(format!("get_at answers differ without / with the version index: {:?} vs {:?}", per_index[0].iter().map(|v| v.as_ref().map(|b| String::from_utf8_lossy(b).to_string())).collect::<Vec<_>>(), per_index[1].iter().map(|v| v.as_ref().map(|b| String::from_utf8_lossy(b).to_string())).collect::<Vec<_>>()));
 			}
 			if ops.iter().filter(|o| !matches!(o, VOp::Flush)).count() >= 2 {
@@ -534,16 +613,7 @@ async fn timetravel_enum_impl(maxlen: usize, name: &str) {
 				}
 			}
 			if let Some(b) = bad {
-				// candidate for known finding F21 (decided by check.py against known_findings.json, not here): with the
-				// version index ON, two writes of one key with the SAME timestamp, and the answers differ between
-				// before and after the index is filled (flush) - never a disagreement with the model, never without
-				// the index
-				if hist_only_with_index && dup_ts {
-					kf21 += 1;
-					if kf21_example.is_empty() {
-						kf21_example = format!("{{\"program_on_key_k\":\"{:?}\",\"mismatch\":{:?}}}", ops, b);
-					}
-				} else if failures.len() < 8 {
+				if failures.len() < 8 {
 					failures.push(format!("{{\"program_on_key_k\":\"{:?}\",\"mismatch\":{:?}}}", ops, b));
 				}
 			}
